@@ -77,6 +77,10 @@ def readByte (inp : List UInt8) : Res (UInt8 × List UInt8) :=
 def readU32 (inp : List UInt8) : Res (UInt32 × List UInt8) :=
   if inp.length < 4 then .err else .ok (UInt32.ofNat (Wire.leVal (inp.take 4)), inp.drop 4)
 
+/-- `binary.Read(r, binary.LittleEndian, &i64)` -/
+def readI64 (inp : List UInt8) : Res (Int × List UInt8) :=
+  if inp.length < 8 then .err else .ok ((UInt64.ofNat (Wire.leVal (inp.take 8))).toInt64.toInt, inp.drop 8)
+
 /-- `io.ReadFull(conn, buf)` with `len(buf) = n`: all `n` bytes or an error -/
 def readFull (inp : List UInt8) (n : Int) : Res (List UInt8 × List UInt8) :=
   if n < 0 ∨ (inp.length : Int) < n then .err else .ok (inp.take n.toNat, inp.drop n.toNat)
@@ -99,6 +103,20 @@ def truncSec (ns : Int) : Int := ns - ns % 1000000000
 inductive Out where
   | i32 (v : Int32)
   | bytes (b : List UInt8)
+deriving Repr, DecidableEq
+
+/-- a received file-list entry (receiver/flist.go `File`): the fields the translated code assigns; names and link
+targets are byte strings, the modification time is the 32-bit number of seconds read from the wire -/
+structure FileRec where
+  name : List UInt8
+  length : Int
+  modTime : Int32
+  mode : Int32
+  uid : Int32
+  gid : Int32
+  rdev : Int32
+  linkTarget : List UInt8
+  checksum : List UInt8
 deriving Repr, DecidableEq
 
 /-- `ms.ptr(off, n)` for a request inside the file: the file's bytes (what `MapFile.ptr_correct` proves of the real function) -/
